@@ -63,10 +63,15 @@ def instances(tier, seed):
                 if strat_kind == "two" and ck == "c1":
                     continue
                 for bk, blk in blockers.items():
-                    for dl_kind in ("tight", "staggered", "loose"):
+                    for dl_kind in ("tight", "staggered", "loose", "fastonly"):
+                        if dl_kind == "fastonly" and (strat_kind == "one" or k > 2):
+                            continue
                         gs = []
                         for i in range(k):
-                            if dl_kind == "tight":
+                            if dl_kind == "fastonly":
+                                # only the fast strategy (1us) can still make it
+                                dl = NOW + 2 + i
+                            elif dl_kind == "tight":
                                 dl = NOW + 4
                             elif dl_kind == "staggered":
                                 dl = NOW + 3 + 2 * i
@@ -559,7 +564,7 @@ def main(tier, seed):
         required_stats=("instances", "reference_evaluations",
                         "instances_with_achievable_goodput", "optimum_matched",
                         "maximal_plans", "instances_with_unplaced_task"),
-        chunk=3, budget_s=280 if tier == "quick" else 3000, confirm_job=confirm_job)
+        chunk=3, budget_s=280 if tier == "quick" else 900, confirm_job=confirm_job)
 
 
 def replay(path):
